@@ -352,9 +352,11 @@ func toSMTPErr(err error) *smtp.SMTPError {
 	if ok {
 		res.Code = ctxCode
 	}
-	ctxEnchCode, ok := ctxInfo["smtp_enchcode"].(smtp.EnhancedCode)
-	if ok {
-		res.EnhancedCode = ctxEnchCode
+	// exterrors.SMTPError and target.remote store exterrors.EnhancedCode here.
+	// An unset code is skipped: Status is mandatory in DSN.
+	ctxEnchCode, ok := ctxInfo["smtp_enchcode"].(exterrors.EnhancedCode)
+	if ok && ctxEnchCode[0] > 0 {
+		res.EnhancedCode = smtp.EnhancedCode(ctxEnchCode)
 	}
 	ctxMsg, ok := ctxInfo["smtp_msg"].(string)
 	if ok {
